@@ -12,3 +12,4 @@ CONSTANTS
 INVARIANTS TypeC16 GenerateIsBatch AccSheet WinRateSane ProfitFactorSane OrderFreeC16
 PROPERTIES Keyed Additive LatestBalance
 CHECK_DEADLOCK FALSE
+VIEW View
